@@ -33,11 +33,11 @@ import (
 	"sort"
 	"strconv"
 	"strings"
+	"sync"
 	"time"
 
 	_ "modernc.org/sqlite"
 
-	"github.com/tucats/ego/internal/verifrt/enum"
 	"github.com/tucats/ego/internal/verifrt/report"
 	"github.com/tucats/ego/internal/verifrt/tblsrv"
 	vsql "github.com/tucats/ego/internal/verifrt/vsql"
@@ -81,7 +81,13 @@ func must(err error, what string) {
 	}
 }
 
-func newWorld(dir string) *world {
+// newWorld builds the database, the reference and the server. backend "file"
+// is a SQLite file in WAL mode under the scratch directory (what a deployment
+// uses); backend "memdb" is SQLite's in-memory VFS shared by the connections of
+// this process (same engine, same locking protocol, rollback journal in memory;
+// a connection costs a fifth of what it costs on a WAL file).
+func newWorld(dir, backend string) *world {
+	defer func(t time.Time) { prof["newWorld"] += time.Since(t) }(time.Now())
 	must(os.MkdirAll(dir, 0o755), "scratch")
 
 	w := &world{path: filepath.Join(dir, "work.db")}
@@ -90,16 +96,23 @@ func newWorld(dir string) *world {
 		_ = os.Remove(w.path + sfx)
 	}
 
+	base := "file:" + w.path + "?_pragma=synchronous(off)"
+	if backend == "memdb" {
+		base = "file:/c17work.db?vfs=memdb"
+	}
+
 	var err error
 
-	w.plain, err = gosql.Open("sqlite", "file:"+w.path+"?_pragma=synchronous(off)&_pragma=busy_timeout(0)&_pragma=foreign_keys(1)")
+	w.plain, err = gosql.Open("sqlite", base+"&_pragma=busy_timeout(0)&_pragma=foreign_keys(1)")
 	must(err, "open work database")
-
-	_, err = w.plain.Exec("PRAGMA journal_mode=WAL")
-	must(err, "journal mode")
 
 	w.probe, err = w.plain.Conn(context.Background())
 	must(err, "probe connection")
+
+	if backend == "file" {
+		_, err = w.probe.ExecContext(context.Background(), "PRAGMA journal_mode=WAL")
+		must(err, "journal mode")
+	}
 
 	for _, q := range fixtureSQL {
 		_, err = w.probe.ExecContext(context.Background(), q)
@@ -125,7 +138,7 @@ func newWorld(dir string) *world {
 
 	w.srv, err = tblsrv.New()
 	must(err, "table server")
-	must(w.srv.AddSQLiteDSN(dsnName, "file:"+w.path+"?_pragma=synchronous(off)&_pragma=foreign_keys(1)", false), "DSN")
+	must(w.srv.AddSQLiteDSN(dsnName, base+"&_pragma=foreign_keys(1)", false), "DSN")
 
 	vsql.VerifSetHook(func(ev vsql.VerifEvent) { w.ev = append(w.ev, ev) })
 
@@ -315,6 +328,9 @@ func (w *world) run(c tcase) outcome {
 	t0 := time.Now()
 	status, resp, _ := w.srv.Do("POST", "/dsns/"+dsnName+"/tables/@transaction", body, nil)
 	prof["do"] += time.Since(t0)
+	if time.Since(t0) > time.Second && os.Getenv("VERIF_C17_PROF") != "" {
+		fmt.Fprintf(os.Stderr, "SLOW %v %s -> %d\n", time.Since(t0), c.name(), status)
+	}
 	defer func(t time.Time) { prof["after"] += time.Since(t) }(time.Now())
 
 	out.Status = status
@@ -365,14 +381,18 @@ func (w *world) run(c tcase) outcome {
 		must(err, "probe rollback")
 	}
 
-	out.After = dump(w.probe)
-
-	// release whatever the handler left behind, then put the database back
+	// Release whatever the handler left behind. What an unfinished transaction
+	// wrote is invisible to every other connection and is rolled back here, so
+	// the committed content read now is the content at the time the handler
+	// returned. (It is read after the release because a leaked writer blocks
+	// even readers on the in-memory VFS.)
 	t1 := time.Now()
 	vsql.VerifCloseAll()
 	prof["closeall"] += time.Since(t1)
 
-	if out.After != w.pristine || dump(w.probe) != w.pristine {
+	out.After = dump(w.probe)
+
+	if out.After != w.pristine {
 		w.reset()
 	}
 
@@ -386,7 +406,7 @@ type sink struct {
 }
 
 // judge applies the oracle.
-func (s sink) judge(c tcase, o outcome) {
+func (s sink) judge(idx int, c tcase, o outcome) {
 	r := s.r
 	mech := c.Mech
 
@@ -395,7 +415,7 @@ func (s sink) judge(c tcase, o outcome) {
 	}
 
 	wit := witness{Name: c.name(), Case: c, Outcome: o}
-	size := len(c.Ops)*100 + c.Pos
+	size := len(c.Ops)*10000000 + idx // shortest request first, then enumeration order
 
 	success := o.Status >= 200 && o.Status < 300
 	failure := o.Status >= 400
@@ -431,14 +451,30 @@ func (s sink) judge(c tcase, o outcome) {
 	r.Add("mechanism:"+mech, 1)
 }
 
-func tierLen(r *report.R) int {
-	if v := os.Getenv("VERIF_C17_LEN"); v != "" {
-		n, _ := strconv.Atoi(v)
+// tierPlan is the enumeration plan of the tier (VERIF_C17_LEN cuts it short
+// for experiments).
+func tierPlan(r *report.R) plan {
+	pl := planFor(r.Thorough())
 
-		return n
+	if v := os.Getenv("VERIF_C17_LEN"); v != "" {
+		if n, _ := strconv.Atoi(v); n >= 1 && n < len(pl) {
+			pl = pl[:n]
+		}
 	}
 
-	return r.Pick(3, 4)
+	return pl
+}
+
+// fileLen is the request length up to which every case also runs against a
+// SQLite file in WAL mode.
+const fileLen = 2
+
+func (w *world) close() {
+	vsql.VerifCloseAll()
+	_ = w.probe.Close()
+	_ = w.plain.Close()
+	_ = w.refConn.Close()
+	_ = w.ref.Close()
 }
 
 func worker(spec, partial string) {
@@ -449,25 +485,35 @@ func worker(spec, partial string) {
 	}
 
 	r := report.New("fault_enumeration")
-	w := newWorld(filepath.Join(os.Getenv("VERIF_SCRATCH"), fmt.Sprintf("w%d", i)))
 	s := sink{r}
 
-	enumerate(tierLen(r), func(idx int) bool { return idx%n == i }, func(idx int, c tcase) {
-		o := w.run(c)
-		r.Eval(1)
-		r.Distinct(c.name())
-		s.judge(c, o)
+	for _, pass := range []struct {
+		backend string
+		maxLen  int
+	}{{"file", min(fileLen, len(tierPlan(r)))}, {"memdb", len(tierPlan(r))}} {
+		w := newWorld(filepath.Join(os.Getenv("VERIF_SCRATCH"), fmt.Sprintf("w%d", i)), pass.backend)
 
-		if c.Pos > 0 && len(c.Ops) > 1 && idx%9973 == i {
-			r.Sample(map[string]any{"case": c.name(), "mechanism": c.Mech, "failure_position": c.Pos, "status": o.Status, "all_applied_possible": o.AllApplied != ""})
-		}
-	})
+		enumerate(tierPlan(r)[:pass.maxLen], func(idx int) bool { return idx%n == i }, func(idx int, c tcase) {
+			c.Backend = pass.backend
+			o := w.run(c)
+			r.Eval(1)
+			r.Distinct(pass.backend + "|" + c.name())
+			r.Add("cases:"+pass.backend, 1)
+			s.judge(idx, c, o)
 
-	if os.Getenv("VERIF_C17_PROF") != "" {
-		fmt.Fprintf(os.Stderr, "worker %d: %v evals=%d resets=%d\n", i, prof, r.Evals(), w.resets)
+			if pass.backend == "memdb" && (idx < 2 || (c.Pos > 0 && len(c.Ops) > 1 && idx%9973 == i)) {
+				r.Sample(map[string]any{"case": c.name(), "mechanism": c.Mech, "failure_position": c.Pos, "status": o.Status, "all_applied_possible": o.AllApplied != ""})
+			}
+		})
+
+		r.Add("database_resets", int64(w.resets))
+		w.close()
 	}
 
-	r.Add("database_resets", int64(w.resets))
+	if os.Getenv("VERIF_C17_PROF") != "" {
+		fmt.Fprintf(os.Stderr, "worker %d: %v evals=%d\n", i, prof, r.Evals())
+	}
+
 	r.SavePartial(partial)
 }
 
@@ -477,14 +523,15 @@ func main() {
 	}
 
 	r := report.New("fault_enumeration")
-	maxLen := tierLen(r)
+	pl := tierPlan(r)
+	maxLen := len(pl)
 	scratch := os.Getenv("VERIF_SCRATCH")
 
 	if scratch == "" {
 		report.Fatal("VERIF_SCRATCH is not set")
 	}
 
-	r.Rule(fmt.Sprintf("every sequence of 1..%d operations over %d good operations %v, as it is and with one position replaced by each of %d failing/refused operations or carrying each of %d error-condition lists (true, true with status+message, false then true, row-count true, false, blank, malformed, unevaluable, false then unevaluable, unevaluable then true); distinct = the sequence of operation variants", maxLen, nGood, goodNames, len(failing(0)), len(decorations)))
+	r.Rule(fmt.Sprintf("every sequence of 1..%d good operations (%s), as it is and with one position replaced by each of %d failing/refused operations or carrying each of %d error-condition lists (true, true with status+message, false then true, row-count true, false, blank, malformed, unevaluable, false then unevaluable, unevaluable then true), against SQLite's shared in-memory VFS; every case of length <= %d also against a SQLite file in WAL mode; distinct = (backend, sequence of operation variants)", maxLen, pl, len(failing(0)), len(decorations), min(fileLen, maxLen)))
 	r.Assume(
 		"all-applied state = what a reference SQLite connection holds after the SQL of every operation; a request with a true error condition, an unknown opcode, a statement the reference refuses or a violated deferred foreign key has no all-applied state and must report failure",
 		"failure = HTTP status >= 400, success = 2xx; the response text and the status chosen among the failures are not judged",
@@ -497,11 +544,15 @@ func main() {
 
 		must(report.LoadReplay(r.Replay, &wit), "replay")
 
-		w := newWorld(filepath.Join(scratch, "replay"))
+		if wit.Case.Backend == "" {
+			wit.Case.Backend = "file"
+		}
+
+		w := newWorld(filepath.Join(scratch, "replay"), wit.Case.Backend)
 		o := w.run(wit.Case)
 		b, _ := json.MarshalIndent(o, "", " ")
 		fmt.Println(string(b))
-		sink{r}.judge(wit.Case, o)
+		sink{r}.judge(0, wit.Case, o)
 		r.Eval(1)
 		r.Distinct(wit.Case.name())
 		r.Distinct("replay")
@@ -514,7 +565,7 @@ func main() {
 		n, _ = strconv.Atoi(v)
 	}
 
-	total := enumerate(maxLen, func(int) bool { return false }, nil)
+	total := enumerate(pl, func(int) bool { return false }, nil) + enumerate(pl[:min(fileLen, maxLen)], func(int) bool { return false }, nil)
 
 	type res struct {
 		path string
@@ -524,17 +575,29 @@ func main() {
 
 	results := make([]res, n)
 
-	enum.Par(n, func(i int) {
-		p := filepath.Join(scratch, fmt.Sprintf("part-%d.json", i))
-		cmd := exec.Command(os.Args[0], "worker", fmt.Sprintf("%d/%d", i, n), p)
-		cmd.Env = append(os.Environ(), "GOMAXPROCS=2")
-		out, err := cmd.CombinedOutput()
-		results[i] = res{p, err, out}
+	// one goroutine per worker process (enum.Par hands out indices in chunks of
+	// 64, which would run them one after the other)
+	var wg sync.WaitGroup
 
-		if os.Getenv("VERIF_C17_PROF") != "" {
-			fmt.Print(string(out))
-		}
-	})
+	for i := 0; i < n; i++ {
+		wg.Add(1)
+
+		go func(i int) {
+			defer wg.Done()
+
+			p := filepath.Join(scratch, fmt.Sprintf("part-%d.json", i))
+			cmd := exec.Command(os.Args[0], "worker", fmt.Sprintf("%d/%d", i, n), p)
+			cmd.Env = append(os.Environ(), "GOMAXPROCS=2")
+			out, err := cmd.CombinedOutput()
+			results[i] = res{p, err, out}
+
+			if os.Getenv("VERIF_C17_PROF") != "" {
+				fmt.Print(string(out))
+			}
+		}(i)
+	}
+
+	wg.Wait()
 
 	for i, rs := range results {
 		if rs.err != nil {
